@@ -248,6 +248,35 @@ def track_result(body, start_local, pol=+1, start_cls=None):
 
 # ---------------------------------------------------------------- success / failure returns
 
+# functions that turn an error *value* into the crate's error type: called on the payload of an
+# `Err(e)` arm they return an error (frozen; one line of reason each)
+ERROR_CONVERTERS = [
+    'mithril_stm::*::blst_error_to_stm_error',   # Ok only for BLST_SUCCESS, which blst never wraps in Err
+]
+
+
+def _from_err_payload(body, c):
+    if not c.args or c.args[0][0] not in ('copy', 'move'):
+        return False
+    seen = set()
+    work = [c.args[0][1][0]]
+    while work:
+        l = work.pop()
+        if l in seen:
+            continue
+        seen.add(l)
+        for (bi, si, pl, rv) in body.defs(l):
+            if si == 't':
+                continue
+            if rv[0] == 'use' and rv[1][0] in ('copy', 'move'):
+                pr = rv[1][1][1]
+                if any(isinstance(e, tuple) and e[0] == 'd' and e[2] == 'Err' for e in pr):
+                    return True
+                if not pr:
+                    work.append(rv[1][1][0])
+    return False
+
+
 def return_assigns(body, success='ok'):
     """Classify every assignment to the return place.  Returns (success_points, failure_blocks);
     a success point is a dict {bb, kind: stmt|edge|ret, rv, to}.
@@ -282,6 +311,8 @@ def return_assigns(body, success='ok'):
             if any(glob_match('<* as std::ops::try_trait::FromResidual>::from_residual', n) or
                    n == 'std::ops::try_trait::FromResidual::from_residual' for n in c.names()):
                 fail.add(bi)
+            elif any(match_any(ERROR_CONVERTERS, n) for n in c.names()) and _from_err_payload(body, c):
+                fail.add(bi)    # `Err(e) => convert(e)`: returns an error
             else:
                 # tail call: its success is the fn's success; the assignment happens on the
                 # edge to the target block
@@ -685,7 +716,10 @@ def origins(body, start, through_calls=True, max_nodes=4000, call_filter=None):
             out.add('.'.join(('pty:' + type_head(body.lty(l)),) + path))
             # parameters can still be reassigned, fall through to defs
         ds = body.defs(l)
+        live = body.live()
         for (bi, si, pl, rv) in ds:
+            if bi not in live:
+                continue    # definition in a block pruned by constant conditions (e.g. cfg!(..))
             # a write to a sub-place of l: only relevant if compatible with the path we want
             wpath = fields_of(pl[1])
             if wpath and path[:len(wpath)] != wpath and wpath[:len(path)] != path:
